@@ -149,6 +149,14 @@ def build(eng, pkt, kind, case):
     name = env.name_from_shape(eng, [tuple(x) for x in case.get('shape', [[1, 1], [1, 1]])])
     inner = env.make_signer(eng, kind, for_interest=(pkt == 'interest'), rmin=case.get('rmin', 32))
     rec = Rec(inner)
+    if case.get('reuse'):
+        # the same signer object has already signed other packets (a signer is used for many packets in its life)
+        for j in range(case['reuse']):
+            if (pkt == 'data') == (j % 2 == 0):
+                enc.make_data('/warm/up/%d' % j, enc.MetaInfo(), b'earlier packet', rec)
+            else:
+                enc.make_interest('/warm/up/%d' % j, enc.InterestParam(nonce=j + 1), b'earlier', rec)
+        rec.contents = None
     k = case.get('payload', 1)
     if pkt == 'data':
         content = None if k is None else eng.bytes('content', k)
@@ -353,6 +361,13 @@ def cases(tier, seed):
                                                   'digest_pos': dp, 'rmin': 32 if (payload == 2 and dp is None) else 68,
                                                   'fh': dp == 0},
                                {'weight': 10}))
+    # a signer object that has signed before (same kind of packet, the other kind, several)
+    for kind in KINDS:
+        for n in (1, 2):
+            cs.append(('cover_data', {'pkt': 'data', 'signer': kind, 'payload': 1, 'shape': [[1, 1]], 'rmin': 70,
+                                      'reuse': n}, {'weight': 10}))
+            cs.append(('cover_interest', {'pkt': 'interest', 'signer': kind, 'payload': 1, 'shape': [[1, 1]],
+                                          'digest_pos': None, 'rmin': 70, 'reuse': n}, {'weight': 10}))
     # tampering: sizes of the two template packets are bounded by ~120 / ~140 bytes (RSA: 256-byte signature)
     for pkt in ('data', 'interest'):
         for kind in KINDS:
